@@ -947,18 +947,18 @@ static const yytype_int16 yyrline[] =
      475,   480,   481,   487,   490,   506,   515,   557,   558,   563,
      580,   594,   608,   622,   640,   641,   647,   646,   663,   662,
      683,   682,   707,   713,   773,   774,   775,   776,   777,   778,
-     784,   805,   836,   841,   858,   863,   883,   884,   898,   899,
-     900,   901,   902,   906,   907,   921,   925,  1021,  1069,  1130,
-    1175,  1176,  1180,  1215,  1268,  1323,  1354,  1361,  1368,  1381,
-    1392,  1403,  1414,  1425,  1436,  1447,  1458,  1473,  1489,  1501,
-    1576,  1614,  1518,  1743,  1767,  1780,  1809,  1829,  1852,  1900,
-    1907,  1914,  1913,  1960,  1959,  2010,  2018,  2026,  2034,  2042,
-    2050,  2058,  2062,  2070,  2071,  2096,  2116,  2144,  2218,  2250,
-    2268,  2279,  2322,  2338,  2358,  2368,  2367,  2376,  2390,  2391,
-    2396,  2406,  2421,  2420,  2433,  2434,  2439,  2472,  2499,  2555,
-    2562,  2568,  2574,  2584,  2588,  2596,  2608,  2622,  2629,  2636,
-    2661,  2673,  2685,  2697,  2712,  2724,  2739,  2784,  2805,  2840,
-    2875,  2909,  2939,  2961,  2971,  2981,  2991,  3001,  3021,  3041
+     784,   805,   836,   844,   861,   869,   889,   890,   904,   905,
+     906,   907,   908,   912,   913,   927,   931,  1027,  1075,  1136,
+    1182,  1188,  1192,  1227,  1280,  1335,  1366,  1373,  1380,  1393,
+    1404,  1415,  1426,  1437,  1448,  1459,  1470,  1485,  1501,  1513,
+    1588,  1626,  1530,  1755,  1779,  1792,  1821,  1841,  1864,  1912,
+    1919,  1926,  1925,  1972,  1971,  2022,  2030,  2038,  2046,  2054,
+    2062,  2070,  2074,  2082,  2083,  2108,  2128,  2156,  2230,  2262,
+    2280,  2291,  2334,  2350,  2370,  2380,  2379,  2388,  2402,  2403,
+    2408,  2418,  2433,  2432,  2445,  2446,  2451,  2484,  2511,  2567,
+    2574,  2580,  2586,  2596,  2600,  2608,  2620,  2634,  2641,  2648,
+    2673,  2685,  2697,  2709,  2724,  2736,  2751,  2796,  2817,  2852,
+    2887,  2921,  2951,  2973,  2983,  2993,  3003,  3013,  3033,  3053
 };
 #endif
 
@@ -2732,12 +2732,15 @@ yyreduce:
       {
         (yyval.modifier).flags = STRING_FLAGS_BASE64;
         (yyval.modifier).alphabet = ss_new(DEFAULT_BASE64_ALPHABET);
+
+        if ((yyval.modifier).alphabet == NULL)
+          fail_with_error(ERROR_INSUFFICIENT_MEMORY);
       }
-#line 2737 "libyara/grammar.c"
+#line 2740 "libyara/grammar.c"
     break;
 
   case 53: /* string_modifier: "<base64>" '(' "text string" ')'  */
-#line 842 "libyara/grammar.y"
+#line 845 "libyara/grammar.y"
       {
         int result = ERROR_SUCCESS;
 
@@ -2754,20 +2757,23 @@ yyreduce:
         (yyval.modifier).flags = STRING_FLAGS_BASE64;
         (yyval.modifier).alphabet = (yyvsp[-1].sized_string);
       }
-#line 2758 "libyara/grammar.c"
+#line 2761 "libyara/grammar.c"
     break;
 
   case 54: /* string_modifier: "<base64wide>"  */
-#line 859 "libyara/grammar.y"
+#line 862 "libyara/grammar.y"
       {
         (yyval.modifier).flags = STRING_FLAGS_BASE64_WIDE;
         (yyval.modifier).alphabet = ss_new(DEFAULT_BASE64_ALPHABET);
+
+        if ((yyval.modifier).alphabet == NULL)
+          fail_with_error(ERROR_INSUFFICIENT_MEMORY);
       }
-#line 2767 "libyara/grammar.c"
+#line 2773 "libyara/grammar.c"
     break;
 
   case 55: /* string_modifier: "<base64wide>" '(' "text string" ')'  */
-#line 864 "libyara/grammar.y"
+#line 870 "libyara/grammar.y"
       {
         int result = ERROR_SUCCESS;
 
@@ -2784,17 +2790,17 @@ yyreduce:
         (yyval.modifier).flags = STRING_FLAGS_BASE64_WIDE;
         (yyval.modifier).alphabet = (yyvsp[-1].sized_string);
       }
-#line 2788 "libyara/grammar.c"
-    break;
-
-  case 56: /* regexp_modifiers: %empty  */
-#line 883 "libyara/grammar.y"
-                                          { (yyval.modifier).flags = 0; }
 #line 2794 "libyara/grammar.c"
     break;
 
+  case 56: /* regexp_modifiers: %empty  */
+#line 889 "libyara/grammar.y"
+                                          { (yyval.modifier).flags = 0; }
+#line 2800 "libyara/grammar.c"
+    break;
+
   case 57: /* regexp_modifiers: regexp_modifiers regexp_modifier  */
-#line 885 "libyara/grammar.y"
+#line 891 "libyara/grammar.y"
       {
         if ((yyvsp[-1].modifier).flags & (yyvsp[0].modifier).flags)
         {
@@ -2805,47 +2811,47 @@ yyreduce:
           (yyval.modifier).flags = (yyvsp[-1].modifier).flags | (yyvsp[0].modifier).flags;
         }
       }
-#line 2809 "libyara/grammar.c"
-    break;
-
-  case 58: /* regexp_modifier: "<wide>"  */
-#line 898 "libyara/grammar.y"
-                    { (yyval.modifier).flags = STRING_FLAGS_WIDE; }
 #line 2815 "libyara/grammar.c"
     break;
 
-  case 59: /* regexp_modifier: "<ascii>"  */
-#line 899 "libyara/grammar.y"
-                    { (yyval.modifier).flags = STRING_FLAGS_ASCII; }
+  case 58: /* regexp_modifier: "<wide>"  */
+#line 904 "libyara/grammar.y"
+                    { (yyval.modifier).flags = STRING_FLAGS_WIDE; }
 #line 2821 "libyara/grammar.c"
     break;
 
-  case 60: /* regexp_modifier: "<nocase>"  */
-#line 900 "libyara/grammar.y"
-                    { (yyval.modifier).flags = STRING_FLAGS_NO_CASE; }
+  case 59: /* regexp_modifier: "<ascii>"  */
+#line 905 "libyara/grammar.y"
+                    { (yyval.modifier).flags = STRING_FLAGS_ASCII; }
 #line 2827 "libyara/grammar.c"
     break;
 
-  case 61: /* regexp_modifier: "<fullword>"  */
-#line 901 "libyara/grammar.y"
-                    { (yyval.modifier).flags = STRING_FLAGS_FULL_WORD; }
+  case 60: /* regexp_modifier: "<nocase>"  */
+#line 906 "libyara/grammar.y"
+                    { (yyval.modifier).flags = STRING_FLAGS_NO_CASE; }
 #line 2833 "libyara/grammar.c"
     break;
 
-  case 62: /* regexp_modifier: "<private>"  */
-#line 902 "libyara/grammar.y"
-                    { (yyval.modifier).flags = STRING_FLAGS_PRIVATE; }
+  case 61: /* regexp_modifier: "<fullword>"  */
+#line 907 "libyara/grammar.y"
+                    { (yyval.modifier).flags = STRING_FLAGS_FULL_WORD; }
 #line 2839 "libyara/grammar.c"
     break;
 
-  case 63: /* hex_modifiers: %empty  */
-#line 906 "libyara/grammar.y"
-                                          { (yyval.modifier).flags = 0; }
+  case 62: /* regexp_modifier: "<private>"  */
+#line 908 "libyara/grammar.y"
+                    { (yyval.modifier).flags = STRING_FLAGS_PRIVATE; }
 #line 2845 "libyara/grammar.c"
     break;
 
+  case 63: /* hex_modifiers: %empty  */
+#line 912 "libyara/grammar.y"
+                                          { (yyval.modifier).flags = 0; }
+#line 2851 "libyara/grammar.c"
+    break;
+
   case 64: /* hex_modifiers: hex_modifiers hex_modifier  */
-#line 908 "libyara/grammar.y"
+#line 914 "libyara/grammar.y"
       {
         if ((yyvsp[-1].modifier).flags & (yyvsp[0].modifier).flags)
         {
@@ -2856,17 +2862,17 @@ yyreduce:
           (yyval.modifier).flags = (yyvsp[-1].modifier).flags | (yyvsp[0].modifier).flags;
         }
       }
-#line 2860 "libyara/grammar.c"
-    break;
-
-  case 65: /* hex_modifier: "<private>"  */
-#line 921 "libyara/grammar.y"
-                    { (yyval.modifier).flags = STRING_FLAGS_PRIVATE; }
 #line 2866 "libyara/grammar.c"
     break;
 
+  case 65: /* hex_modifier: "<private>"  */
+#line 927 "libyara/grammar.y"
+                    { (yyval.modifier).flags = STRING_FLAGS_PRIVATE; }
+#line 2872 "libyara/grammar.c"
+    break;
+
   case 66: /* identifier: "identifier"  */
-#line 926 "libyara/grammar.y"
+#line 932 "libyara/grammar.y"
       {
         YR_EXPRESSION expr;
 
@@ -2962,11 +2968,11 @@ yyreduce:
 
         fail_if_error(result);
       }
-#line 2966 "libyara/grammar.c"
+#line 2972 "libyara/grammar.c"
     break;
 
   case 67: /* identifier: identifier '.' "identifier"  */
-#line 1022 "libyara/grammar.y"
+#line 1028 "libyara/grammar.y"
       {
         int result = ERROR_SUCCESS;
         YR_OBJECT* field = NULL;
@@ -3014,11 +3020,11 @@ yyreduce:
 
         fail_if_error(result);
       }
-#line 3018 "libyara/grammar.c"
+#line 3024 "libyara/grammar.c"
     break;
 
   case 68: /* identifier: identifier '[' primary_expression ']'  */
-#line 1070 "libyara/grammar.y"
+#line 1076 "libyara/grammar.y"
       {
         int result = ERROR_SUCCESS;
         YR_OBJECT_ARRAY* array;
@@ -3078,11 +3084,11 @@ yyreduce:
 
         fail_if_error(result);
       }
-#line 3082 "libyara/grammar.c"
+#line 3088 "libyara/grammar.c"
     break;
 
   case 69: /* identifier: identifier '(' arguments ')'  */
-#line 1131 "libyara/grammar.y"
+#line 1137 "libyara/grammar.y"
       {
         YR_ARENA_REF ref = YR_ARENA_NULL_REF;
         int result = ERROR_SUCCESS;
@@ -3123,23 +3129,28 @@ yyreduce:
 
         fail_if_error(result);
       }
-#line 3127 "libyara/grammar.c"
-    break;
-
-  case 70: /* arguments: %empty  */
-#line 1175 "libyara/grammar.y"
-                      { (yyval.c_string) = yr_strdup(""); }
 #line 3133 "libyara/grammar.c"
     break;
 
+  case 70: /* arguments: %empty  */
+#line 1182 "libyara/grammar.y"
+      {
+        (yyval.c_string) = yr_strdup("");
+
+        if ((yyval.c_string) == NULL)
+          fail_with_error(ERROR_INSUFFICIENT_MEMORY);
+      }
+#line 3144 "libyara/grammar.c"
+    break;
+
   case 71: /* arguments: arguments_list  */
-#line 1176 "libyara/grammar.y"
+#line 1188 "libyara/grammar.y"
                       { (yyval.c_string) = (yyvsp[0].c_string); }
-#line 3139 "libyara/grammar.c"
+#line 3150 "libyara/grammar.c"
     break;
 
   case 72: /* arguments_list: expression  */
-#line 1181 "libyara/grammar.y"
+#line 1193 "libyara/grammar.y"
       {
         (yyval.c_string) = (char*) yr_malloc(YR_MAX_FUNCTION_ARGS + 1);
 
@@ -3174,11 +3185,11 @@ yyreduce:
             assert(compiler->last_error != ERROR_SUCCESS);
         }
       }
-#line 3178 "libyara/grammar.c"
+#line 3189 "libyara/grammar.c"
     break;
 
   case 73: /* arguments_list: arguments_list ',' expression  */
-#line 1216 "libyara/grammar.y"
+#line 1228 "libyara/grammar.y"
       {
         int result = ERROR_SUCCESS;
 
@@ -3227,11 +3238,11 @@ yyreduce:
 
         (yyval.c_string) = (yyvsp[-2].c_string);
       }
-#line 3231 "libyara/grammar.c"
+#line 3242 "libyara/grammar.c"
     break;
 
   case 74: /* regexp: "regular expression"  */
-#line 1269 "libyara/grammar.y"
+#line 1281 "libyara/grammar.y"
       {
         YR_ARENA_REF re_ref;
         RE_ERROR error;
@@ -3282,11 +3293,11 @@ yyreduce:
 
         (yyval.expression).type = EXPRESSION_TYPE_REGEXP;
       }
-#line 3286 "libyara/grammar.c"
+#line 3297 "libyara/grammar.c"
     break;
 
   case 75: /* boolean_expression: expression  */
-#line 1324 "libyara/grammar.y"
+#line 1336 "libyara/grammar.y"
       {
         if ((yyvsp[0].expression).type == EXPRESSION_TYPE_STRING)
         {
@@ -3314,24 +3325,13 @@ yyreduce:
 
         (yyval.expression).type = EXPRESSION_TYPE_BOOLEAN;
       }
-#line 3318 "libyara/grammar.c"
-    break;
-
-  case 76: /* expression: "<true>"  */
-#line 1355 "libyara/grammar.y"
-      {
-        fail_if_error(yr_parser_emit_push_const(yyscanner, 1));
-
-        (yyval.expression).type = EXPRESSION_TYPE_BOOLEAN;
-        (yyval.expression).required_strings.count = 0;
-      }
 #line 3329 "libyara/grammar.c"
     break;
 
-  case 77: /* expression: "<false>"  */
-#line 1362 "libyara/grammar.y"
+  case 76: /* expression: "<true>"  */
+#line 1367 "libyara/grammar.y"
       {
-        fail_if_error(yr_parser_emit_push_const(yyscanner, 0));
+        fail_if_error(yr_parser_emit_push_const(yyscanner, 1));
 
         (yyval.expression).type = EXPRESSION_TYPE_BOOLEAN;
         (yyval.expression).required_strings.count = 0;
@@ -3339,8 +3339,19 @@ yyreduce:
 #line 3340 "libyara/grammar.c"
     break;
 
+  case 77: /* expression: "<false>"  */
+#line 1374 "libyara/grammar.y"
+      {
+        fail_if_error(yr_parser_emit_push_const(yyscanner, 0));
+
+        (yyval.expression).type = EXPRESSION_TYPE_BOOLEAN;
+        (yyval.expression).required_strings.count = 0;
+      }
+#line 3351 "libyara/grammar.c"
+    break;
+
   case 78: /* expression: primary_expression "<matches>" regexp  */
-#line 1369 "libyara/grammar.y"
+#line 1381 "libyara/grammar.y"
       {
         check_type((yyvsp[-2].expression), EXPRESSION_TYPE_STRING, "matches");
         check_type((yyvsp[0].expression), EXPRESSION_TYPE_REGEXP, "matches");
@@ -3353,11 +3364,11 @@ yyreduce:
         (yyval.expression).type = EXPRESSION_TYPE_BOOLEAN;
         (yyval.expression).required_strings.count = 0;
       }
-#line 3357 "libyara/grammar.c"
+#line 3368 "libyara/grammar.c"
     break;
 
   case 79: /* expression: primary_expression "<contains>" primary_expression  */
-#line 1382 "libyara/grammar.y"
+#line 1394 "libyara/grammar.y"
       {
         check_type((yyvsp[-2].expression), EXPRESSION_TYPE_STRING, "contains");
         check_type((yyvsp[0].expression), EXPRESSION_TYPE_STRING, "contains");
@@ -3368,11 +3379,11 @@ yyreduce:
         (yyval.expression).type = EXPRESSION_TYPE_BOOLEAN;
         (yyval.expression).required_strings.count = 0;
       }
-#line 3372 "libyara/grammar.c"
+#line 3383 "libyara/grammar.c"
     break;
 
   case 80: /* expression: primary_expression "<icontains>" primary_expression  */
-#line 1393 "libyara/grammar.y"
+#line 1405 "libyara/grammar.y"
       {
         check_type((yyvsp[-2].expression), EXPRESSION_TYPE_STRING, "icontains");
         check_type((yyvsp[0].expression), EXPRESSION_TYPE_STRING, "icontains");
@@ -3383,11 +3394,11 @@ yyreduce:
         (yyval.expression).type = EXPRESSION_TYPE_BOOLEAN;
         (yyval.expression).required_strings.count = 0;
       }
-#line 3387 "libyara/grammar.c"
+#line 3398 "libyara/grammar.c"
     break;
 
   case 81: /* expression: primary_expression "<startswith>" primary_expression  */
-#line 1404 "libyara/grammar.y"
+#line 1416 "libyara/grammar.y"
       {
         check_type((yyvsp[-2].expression), EXPRESSION_TYPE_STRING, "startswith");
         check_type((yyvsp[0].expression), EXPRESSION_TYPE_STRING, "startswith");
@@ -3398,11 +3409,11 @@ yyreduce:
         (yyval.expression).type = EXPRESSION_TYPE_BOOLEAN;
         (yyval.expression).required_strings.count = 0;
       }
-#line 3402 "libyara/grammar.c"
+#line 3413 "libyara/grammar.c"
     break;
 
   case 82: /* expression: primary_expression "<istartswith>" primary_expression  */
-#line 1415 "libyara/grammar.y"
+#line 1427 "libyara/grammar.y"
       {
         check_type((yyvsp[-2].expression), EXPRESSION_TYPE_STRING, "istartswith");
         check_type((yyvsp[0].expression), EXPRESSION_TYPE_STRING, "istartswith");
@@ -3413,11 +3424,11 @@ yyreduce:
         (yyval.expression).type = EXPRESSION_TYPE_BOOLEAN;
         (yyval.expression).required_strings.count = 0;
       }
-#line 3417 "libyara/grammar.c"
+#line 3428 "libyara/grammar.c"
     break;
 
   case 83: /* expression: primary_expression "<endswith>" primary_expression  */
-#line 1426 "libyara/grammar.y"
+#line 1438 "libyara/grammar.y"
       {
         check_type((yyvsp[-2].expression), EXPRESSION_TYPE_STRING, "endswith");
         check_type((yyvsp[0].expression), EXPRESSION_TYPE_STRING, "endswith");
@@ -3428,11 +3439,11 @@ yyreduce:
         (yyval.expression).type = EXPRESSION_TYPE_BOOLEAN;
         (yyval.expression).required_strings.count = 0;
       }
-#line 3432 "libyara/grammar.c"
+#line 3443 "libyara/grammar.c"
     break;
 
   case 84: /* expression: primary_expression "<iendswith>" primary_expression  */
-#line 1437 "libyara/grammar.y"
+#line 1449 "libyara/grammar.y"
       {
         check_type((yyvsp[-2].expression), EXPRESSION_TYPE_STRING, "iendswith");
         check_type((yyvsp[0].expression), EXPRESSION_TYPE_STRING, "iendswith");
@@ -3443,11 +3454,11 @@ yyreduce:
         (yyval.expression).type = EXPRESSION_TYPE_BOOLEAN;
         (yyval.expression).required_strings.count = 0;
       }
-#line 3447 "libyara/grammar.c"
+#line 3458 "libyara/grammar.c"
     break;
 
   case 85: /* expression: primary_expression "<iequals>" primary_expression  */
-#line 1448 "libyara/grammar.y"
+#line 1460 "libyara/grammar.y"
       {
         check_type((yyvsp[-2].expression), EXPRESSION_TYPE_STRING, "iequals");
         check_type((yyvsp[0].expression), EXPRESSION_TYPE_STRING, "iequals");
@@ -3458,11 +3469,11 @@ yyreduce:
         (yyval.expression).type = EXPRESSION_TYPE_BOOLEAN;
         (yyval.expression).required_strings.count = 0;
       }
-#line 3462 "libyara/grammar.c"
+#line 3473 "libyara/grammar.c"
     break;
 
   case 86: /* expression: "string identifier"  */
-#line 1459 "libyara/grammar.y"
+#line 1471 "libyara/grammar.y"
       {
         int result = yr_parser_reduce_string_identifier(
             yyscanner,
@@ -3477,11 +3488,11 @@ yyreduce:
         (yyval.expression).type = EXPRESSION_TYPE_BOOLEAN;
         (yyval.expression).required_strings.count = 1;
       }
-#line 3481 "libyara/grammar.c"
+#line 3492 "libyara/grammar.c"
     break;
 
   case 87: /* expression: "string identifier" "<at>" primary_expression  */
-#line 1474 "libyara/grammar.y"
+#line 1486 "libyara/grammar.y"
       {
         int result;
 
@@ -3497,11 +3508,11 @@ yyreduce:
         (yyval.expression).required_strings.count = 1;
         (yyval.expression).type = EXPRESSION_TYPE_BOOLEAN;
       }
-#line 3501 "libyara/grammar.c"
+#line 3512 "libyara/grammar.c"
     break;
 
   case 88: /* expression: "string identifier" "<in>" range  */
-#line 1490 "libyara/grammar.y"
+#line 1502 "libyara/grammar.y"
       {
         int result = yr_parser_reduce_string_identifier(
             yyscanner, (yyvsp[-2].c_string), OP_FOUND_IN, YR_UNDEFINED);
@@ -3513,11 +3524,11 @@ yyreduce:
         (yyval.expression).required_strings.count = 1;
         (yyval.expression).type = EXPRESSION_TYPE_BOOLEAN;
       }
-#line 3517 "libyara/grammar.c"
+#line 3528 "libyara/grammar.c"
     break;
 
   case 89: /* expression: "<for>" for_expression error  */
-#line 1502 "libyara/grammar.y"
+#line 1514 "libyara/grammar.y"
       {
         // Free all the loop variable identifiers, including the variables for
         // the current loop (represented by loop_index), and set loop_index to
@@ -3534,11 +3545,11 @@ yyreduce:
         compiler->loop_index = -1;
         YYERROR;
       }
-#line 3538 "libyara/grammar.c"
+#line 3549 "libyara/grammar.c"
     break;
 
   case 90: /* $@6: %empty  */
-#line 1576 "libyara/grammar.y"
+#line 1588 "libyara/grammar.y"
       {
         // var_frame is used for accessing local variables used in this loop.
         // All local variables are accessed using var_frame as a reference,
@@ -3576,11 +3587,11 @@ yyreduce:
         fail_if_error(yr_parser_emit_with_arg(
             yyscanner, OP_POP_M, var_frame + 2, NULL, NULL));
       }
-#line 3580 "libyara/grammar.c"
+#line 3591 "libyara/grammar.c"
     break;
 
   case 91: /* $@7: %empty  */
-#line 1614 "libyara/grammar.y"
+#line 1626 "libyara/grammar.y"
       {
         YR_LOOP_CONTEXT* loop_ctx = &compiler->loop[compiler->loop_index];
         YR_FIXUP* fixup;
@@ -3629,11 +3640,11 @@ yyreduce:
 
         loop_ctx->start_ref = loop_start_ref;
       }
-#line 3633 "libyara/grammar.c"
+#line 3644 "libyara/grammar.c"
     break;
 
   case 92: /* expression: "<for>" for_expression $@6 for_iteration ':' $@7 '(' boolean_expression ')'  */
-#line 1663 "libyara/grammar.y"
+#line 1675 "libyara/grammar.y"
       {
         int32_t jmp_offset;
         YR_FIXUP* fixup;
@@ -3714,11 +3725,11 @@ yyreduce:
         (yyval.expression).type = EXPRESSION_TYPE_BOOLEAN;
         (yyval.expression).required_strings.count = 0;
       }
-#line 3718 "libyara/grammar.c"
+#line 3729 "libyara/grammar.c"
     break;
 
   case 93: /* expression: for_expression "<of>" string_set  */
-#line 1744 "libyara/grammar.y"
+#line 1756 "libyara/grammar.y"
       {
         if ((yyvsp[-2].expression).type == EXPRESSION_TYPE_INTEGER && (yyvsp[-2].expression).value.integer > (yyvsp[0].integer))
         {
@@ -3742,11 +3753,11 @@ yyreduce:
 
         (yyval.expression).type = EXPRESSION_TYPE_BOOLEAN;
       }
-#line 3746 "libyara/grammar.c"
+#line 3757 "libyara/grammar.c"
     break;
 
   case 94: /* expression: for_expression "<of>" rule_set  */
-#line 1768 "libyara/grammar.y"
+#line 1780 "libyara/grammar.y"
       {
         if ((yyvsp[-2].expression).type == EXPRESSION_TYPE_INTEGER && (yyvsp[-2].expression).value.integer > (yyvsp[0].integer))
         {
@@ -3759,11 +3770,11 @@ yyreduce:
         (yyval.expression).type = EXPRESSION_TYPE_BOOLEAN;
         (yyval.expression).required_strings.count = 0;
       }
-#line 3763 "libyara/grammar.c"
+#line 3774 "libyara/grammar.c"
     break;
 
   case 95: /* expression: primary_expression '%' "<of>" string_set  */
-#line 1781 "libyara/grammar.y"
+#line 1793 "libyara/grammar.y"
       {
         check_type((yyvsp[-3].expression), EXPRESSION_TYPE_INTEGER, "%");
 
@@ -3792,11 +3803,11 @@ yyreduce:
         fail_if_error(yr_parser_emit_with_arg(
             yyscanner, OP_OF_PERCENT, OF_STRING_SET, NULL, NULL));
       }
-#line 3796 "libyara/grammar.c"
+#line 3807 "libyara/grammar.c"
     break;
 
   case 96: /* expression: primary_expression '%' "<of>" rule_set  */
-#line 1810 "libyara/grammar.y"
+#line 1822 "libyara/grammar.y"
       {
         check_type((yyvsp[-3].expression), EXPRESSION_TYPE_INTEGER, "%");
 
@@ -3816,11 +3827,11 @@ yyreduce:
         fail_if_error(yr_parser_emit_with_arg(
             yyscanner, OP_OF_PERCENT, OF_RULE_SET, NULL, NULL));
       }
-#line 3820 "libyara/grammar.c"
+#line 3831 "libyara/grammar.c"
     break;
 
   case 97: /* expression: for_expression "<of>" string_set "<in>" range  */
-#line 1830 "libyara/grammar.y"
+#line 1842 "libyara/grammar.y"
       {
         if ((yyvsp[-4].expression).type == EXPRESSION_TYPE_INTEGER && (yyvsp[-4].expression).value.integer > (yyvsp[-2].integer))
         {
@@ -3843,11 +3854,11 @@ yyreduce:
 
         (yyval.expression).type = EXPRESSION_TYPE_BOOLEAN;
       }
-#line 3847 "libyara/grammar.c"
+#line 3858 "libyara/grammar.c"
     break;
 
   case 98: /* expression: for_expression "<of>" string_set "<at>" primary_expression  */
-#line 1853 "libyara/grammar.y"
+#line 1865 "libyara/grammar.y"
       {
         if ((yyvsp[0].expression).type != EXPRESSION_TYPE_INTEGER)
         {
@@ -3895,32 +3906,32 @@ yyreduce:
 
         (yyval.expression).type = EXPRESSION_TYPE_BOOLEAN;
       }
-#line 3899 "libyara/grammar.c"
+#line 3910 "libyara/grammar.c"
     break;
 
   case 99: /* expression: "<not>" boolean_expression  */
-#line 1901 "libyara/grammar.y"
+#line 1913 "libyara/grammar.y"
       {
         fail_if_error(yr_parser_emit(yyscanner, OP_NOT, NULL));
 
         (yyval.expression).type = EXPRESSION_TYPE_BOOLEAN;
         (yyval.expression).required_strings.count = 0;
       }
-#line 3910 "libyara/grammar.c"
+#line 3921 "libyara/grammar.c"
     break;
 
   case 100: /* expression: "<defined>" boolean_expression  */
-#line 1908 "libyara/grammar.y"
+#line 1920 "libyara/grammar.y"
       {
         fail_if_error(yr_parser_emit(yyscanner, OP_DEFINED, NULL));
         (yyval.expression).type = EXPRESSION_TYPE_BOOLEAN;
         (yyval.expression).required_strings.count = 0;
       }
-#line 3920 "libyara/grammar.c"
+#line 3931 "libyara/grammar.c"
     break;
 
   case 101: /* $@8: %empty  */
-#line 1914 "libyara/grammar.y"
+#line 1926 "libyara/grammar.y"
       {
         YR_FIXUP* fixup;
         YR_ARENA_REF jmp_offset_ref;
@@ -3942,11 +3953,11 @@ yyreduce:
         fixup->next = compiler->fixup_stack_head;
         compiler->fixup_stack_head = fixup;
       }
-#line 3946 "libyara/grammar.c"
+#line 3957 "libyara/grammar.c"
     break;
 
   case 102: /* expression: boolean_expression "<and>" $@8 boolean_expression  */
-#line 1936 "libyara/grammar.y"
+#line 1948 "libyara/grammar.y"
       {
         YR_FIXUP* fixup;
 
@@ -3970,11 +3981,11 @@ yyreduce:
         (yyval.expression).type = EXPRESSION_TYPE_BOOLEAN;
         (yyval.expression).required_strings.count = (yyvsp[0].expression).required_strings.count + (yyvsp[-3].expression).required_strings.count;
       }
-#line 3974 "libyara/grammar.c"
+#line 3985 "libyara/grammar.c"
     break;
 
   case 103: /* $@9: %empty  */
-#line 1960 "libyara/grammar.y"
+#line 1972 "libyara/grammar.y"
       {
         YR_FIXUP* fixup;
         YR_ARENA_REF jmp_offset_ref;
@@ -3995,11 +4006,11 @@ yyreduce:
         fixup->next = compiler->fixup_stack_head;
         compiler->fixup_stack_head = fixup;
       }
-#line 3999 "libyara/grammar.c"
+#line 4010 "libyara/grammar.c"
     break;
 
   case 104: /* expression: boolean_expression "<or>" $@9 boolean_expression  */
-#line 1981 "libyara/grammar.y"
+#line 1993 "libyara/grammar.y"
       {
         YR_FIXUP* fixup;
 
@@ -4029,11 +4040,11 @@ yyreduce:
           (yyval.expression).required_strings.count = (yyvsp[-3].expression).required_strings.count;
         }
       }
-#line 4033 "libyara/grammar.c"
+#line 4044 "libyara/grammar.c"
     break;
 
   case 105: /* expression: primary_expression "<" primary_expression  */
-#line 2011 "libyara/grammar.y"
+#line 2023 "libyara/grammar.y"
       {
         fail_if_error(yr_parser_reduce_operation(
             yyscanner, "<", (yyvsp[-2].expression), (yyvsp[0].expression)));
@@ -4041,11 +4052,11 @@ yyreduce:
         (yyval.expression).type = EXPRESSION_TYPE_BOOLEAN;
         (yyval.expression).required_strings.count = 0;
       }
-#line 4045 "libyara/grammar.c"
+#line 4056 "libyara/grammar.c"
     break;
 
   case 106: /* expression: primary_expression ">" primary_expression  */
-#line 2019 "libyara/grammar.y"
+#line 2031 "libyara/grammar.y"
       {
         fail_if_error(yr_parser_reduce_operation(
             yyscanner, ">", (yyvsp[-2].expression), (yyvsp[0].expression)));
@@ -4053,11 +4064,11 @@ yyreduce:
         (yyval.expression).type = EXPRESSION_TYPE_BOOLEAN;
         (yyval.expression).required_strings.count = 0;
       }
-#line 4057 "libyara/grammar.c"
+#line 4068 "libyara/grammar.c"
     break;
 
   case 107: /* expression: primary_expression "<=" primary_expression  */
-#line 2027 "libyara/grammar.y"
+#line 2039 "libyara/grammar.y"
       {
         fail_if_error(yr_parser_reduce_operation(
             yyscanner, "<=", (yyvsp[-2].expression), (yyvsp[0].expression)));
@@ -4065,11 +4076,11 @@ yyreduce:
         (yyval.expression).type = EXPRESSION_TYPE_BOOLEAN;
         (yyval.expression).required_strings.count = 0;
       }
-#line 4069 "libyara/grammar.c"
+#line 4080 "libyara/grammar.c"
     break;
 
   case 108: /* expression: primary_expression ">=" primary_expression  */
-#line 2035 "libyara/grammar.y"
+#line 2047 "libyara/grammar.y"
       {
         fail_if_error(yr_parser_reduce_operation(
             yyscanner, ">=", (yyvsp[-2].expression), (yyvsp[0].expression)));
@@ -4077,11 +4088,11 @@ yyreduce:
         (yyval.expression).type = EXPRESSION_TYPE_BOOLEAN;
         (yyval.expression).required_strings.count = 0;
       }
-#line 4081 "libyara/grammar.c"
+#line 4092 "libyara/grammar.c"
     break;
 
   case 109: /* expression: primary_expression "==" primary_expression  */
-#line 2043 "libyara/grammar.y"
+#line 2055 "libyara/grammar.y"
       {
         fail_if_error(yr_parser_reduce_operation(
             yyscanner, "==", (yyvsp[-2].expression), (yyvsp[0].expression)));
@@ -4089,11 +4100,11 @@ yyreduce:
         (yyval.expression).type = EXPRESSION_TYPE_BOOLEAN;
         (yyval.expression).required_strings.count = 0;
       }
-#line 4093 "libyara/grammar.c"
+#line 4104 "libyara/grammar.c"
     break;
 
   case 110: /* expression: primary_expression "!=" primary_expression  */
-#line 2051 "libyara/grammar.y"
+#line 2063 "libyara/grammar.y"
       {
         fail_if_error(yr_parser_reduce_operation(
             yyscanner, "!=", (yyvsp[-2].expression), (yyvsp[0].expression)));
@@ -4101,33 +4112,33 @@ yyreduce:
         (yyval.expression).type = EXPRESSION_TYPE_BOOLEAN;
         (yyval.expression).required_strings.count = 0;
       }
-#line 4105 "libyara/grammar.c"
+#line 4116 "libyara/grammar.c"
     break;
 
   case 111: /* expression: primary_expression  */
-#line 2059 "libyara/grammar.y"
+#line 2071 "libyara/grammar.y"
       {
         (yyval.expression) = (yyvsp[0].expression);
       }
-#line 4113 "libyara/grammar.c"
+#line 4124 "libyara/grammar.c"
     break;
 
   case 112: /* expression: '(' expression ')'  */
-#line 2063 "libyara/grammar.y"
+#line 2075 "libyara/grammar.y"
       {
         (yyval.expression) = (yyvsp[-1].expression);
       }
-#line 4121 "libyara/grammar.c"
+#line 4132 "libyara/grammar.c"
     break;
 
   case 113: /* for_iteration: for_variables "<in>" iterator  */
-#line 2070 "libyara/grammar.y"
+#line 2082 "libyara/grammar.y"
                                   { (yyval.integer) = FOR_ITERATION_ITERATOR; }
-#line 4127 "libyara/grammar.c"
+#line 4138 "libyara/grammar.c"
     break;
 
   case 114: /* for_iteration: "<of>" string_iterator  */
-#line 2072 "libyara/grammar.y"
+#line 2084 "libyara/grammar.y"
       {
         int var_frame;
         int result = ERROR_SUCCESS;
@@ -4148,11 +4159,11 @@ yyreduce:
 
         (yyval.integer) = FOR_ITERATION_STRING_SET;
       }
-#line 4152 "libyara/grammar.c"
+#line 4163 "libyara/grammar.c"
     break;
 
   case 115: /* for_variables: "identifier"  */
-#line 2097 "libyara/grammar.y"
+#line 2109 "libyara/grammar.y"
       {
         int result = ERROR_SUCCESS;
 
@@ -4172,11 +4183,11 @@ yyreduce:
 
         assert(loop_ctx->vars_count <= YR_MAX_LOOP_VARS);
       }
-#line 4176 "libyara/grammar.c"
+#line 4187 "libyara/grammar.c"
     break;
 
   case 116: /* for_variables: for_variables ',' "identifier"  */
-#line 2117 "libyara/grammar.y"
+#line 2129 "libyara/grammar.y"
       {
         int result = ERROR_SUCCESS;
 
@@ -4201,11 +4212,11 @@ yyreduce:
 
         loop_ctx->vars[loop_ctx->vars_count++].identifier.ptr = (yyvsp[0].c_string);
       }
-#line 4205 "libyara/grammar.c"
+#line 4216 "libyara/grammar.c"
     break;
 
   case 117: /* iterator: identifier  */
-#line 2145 "libyara/grammar.y"
+#line 2157 "libyara/grammar.y"
       {
         YR_LOOP_CONTEXT* loop_ctx = &compiler->loop[compiler->loop_index];
 
@@ -4279,11 +4290,11 @@ yyreduce:
 
         fail_if_error(result);
       }
-#line 4283 "libyara/grammar.c"
+#line 4294 "libyara/grammar.c"
     break;
 
   case 118: /* iterator: set  */
-#line 2219 "libyara/grammar.y"
+#line 2231 "libyara/grammar.y"
       {
         int result = ERROR_SUCCESS;
 
@@ -4311,11 +4322,11 @@ yyreduce:
 
         fail_if_error(result);
       }
-#line 4315 "libyara/grammar.c"
+#line 4326 "libyara/grammar.c"
     break;
 
   case 119: /* set: '(' enumeration ')'  */
-#line 2251 "libyara/grammar.y"
+#line 2263 "libyara/grammar.y"
       {
         // $2.count contains the number of items in the enumeration
         fail_if_error(yr_parser_emit_push_const(yyscanner, (yyvsp[-1].enumeration).count));
@@ -4333,22 +4344,22 @@ yyreduce:
 
         (yyval.enumeration).type = (yyvsp[-1].enumeration).type;
       }
-#line 4337 "libyara/grammar.c"
+#line 4348 "libyara/grammar.c"
     break;
 
   case 120: /* set: range  */
-#line 2269 "libyara/grammar.y"
+#line 2281 "libyara/grammar.y"
       {
         fail_if_error(yr_parser_emit(
             yyscanner, OP_ITER_START_INT_RANGE, NULL));
 
         (yyval.enumeration).type = EXPRESSION_TYPE_INTEGER;
       }
-#line 4348 "libyara/grammar.c"
+#line 4359 "libyara/grammar.c"
     break;
 
   case 121: /* range: '(' primary_expression ".." primary_expression ')'  */
-#line 2280 "libyara/grammar.y"
+#line 2292 "libyara/grammar.y"
       {
         int result = ERROR_SUCCESS;
 
@@ -4387,11 +4398,11 @@ yyreduce:
 
         fail_if_error(result);
       }
-#line 4391 "libyara/grammar.c"
+#line 4402 "libyara/grammar.c"
     break;
 
   case 122: /* enumeration: primary_expression  */
-#line 2323 "libyara/grammar.y"
+#line 2335 "libyara/grammar.y"
       {
         int result = ERROR_SUCCESS;
 
@@ -4407,11 +4418,11 @@ yyreduce:
         (yyval.enumeration).type = (yyvsp[0].expression).type;
         (yyval.enumeration).count = 1;
       }
-#line 4411 "libyara/grammar.c"
+#line 4422 "libyara/grammar.c"
     break;
 
   case 123: /* enumeration: enumeration ',' primary_expression  */
-#line 2339 "libyara/grammar.y"
+#line 2351 "libyara/grammar.y"
       {
         int result = ERROR_SUCCESS;
 
@@ -4427,38 +4438,38 @@ yyreduce:
         (yyval.enumeration).type = (yyvsp[-2].enumeration).type;
         (yyval.enumeration).count = (yyvsp[-2].enumeration).count + 1;
       }
-#line 4431 "libyara/grammar.c"
+#line 4442 "libyara/grammar.c"
     break;
 
   case 124: /* string_iterator: string_set  */
-#line 2359 "libyara/grammar.y"
+#line 2371 "libyara/grammar.y"
       {
         fail_if_error(yr_parser_emit_push_const(yyscanner, (yyvsp[0].integer)));
         fail_if_error(yr_parser_emit(yyscanner, OP_ITER_START_STRING_SET,
             NULL));
       }
-#line 4441 "libyara/grammar.c"
+#line 4452 "libyara/grammar.c"
     break;
 
   case 125: /* $@10: %empty  */
-#line 2368 "libyara/grammar.y"
+#line 2380 "libyara/grammar.y"
       {
         // Push end-of-list marker
         fail_if_error(yr_parser_emit_push_const(yyscanner, YR_UNDEFINED));
       }
-#line 4450 "libyara/grammar.c"
+#line 4461 "libyara/grammar.c"
     break;
 
   case 126: /* string_set: '(' $@10 string_enumeration ')'  */
-#line 2373 "libyara/grammar.y"
+#line 2385 "libyara/grammar.y"
       {
         (yyval.integer) = (yyvsp[-1].integer);
       }
-#line 4458 "libyara/grammar.c"
+#line 4469 "libyara/grammar.c"
     break;
 
   case 127: /* string_set: "<them>"  */
-#line 2377 "libyara/grammar.y"
+#line 2389 "libyara/grammar.y"
       {
         fail_if_error(yr_parser_emit_push_const(yyscanner, YR_UNDEFINED));
 
@@ -4468,23 +4479,23 @@ yyreduce:
 
         (yyval.integer) = count;
       }
-#line 4472 "libyara/grammar.c"
+#line 4483 "libyara/grammar.c"
     break;
 
   case 128: /* string_enumeration: string_enumeration_item  */
-#line 2390 "libyara/grammar.y"
+#line 2402 "libyara/grammar.y"
                               { (yyval.integer) = (yyvsp[0].integer); }
-#line 4478 "libyara/grammar.c"
+#line 4489 "libyara/grammar.c"
     break;
 
   case 129: /* string_enumeration: string_enumeration ',' string_enumeration_item  */
-#line 2391 "libyara/grammar.y"
+#line 2403 "libyara/grammar.y"
                                                      { (yyval.integer) = (yyvsp[-2].integer) + (yyvsp[0].integer); }
-#line 4484 "libyara/grammar.c"
+#line 4495 "libyara/grammar.c"
     break;
 
   case 130: /* string_enumeration_item: "string identifier"  */
-#line 2397 "libyara/grammar.y"
+#line 2409 "libyara/grammar.y"
       {
         int count = 0;
         int result = yr_parser_emit_pushes_for_strings(yyscanner, (yyvsp[0].c_string), &count);
@@ -4494,11 +4505,11 @@ yyreduce:
 
         (yyval.integer) = count;
       }
-#line 4498 "libyara/grammar.c"
+#line 4509 "libyara/grammar.c"
     break;
 
   case 131: /* string_enumeration_item: "string identifier with wildcard"  */
-#line 2407 "libyara/grammar.y"
+#line 2419 "libyara/grammar.y"
       {
         int count = 0;
         int result = yr_parser_emit_pushes_for_strings(yyscanner, (yyvsp[0].c_string), &count);
@@ -4508,40 +4519,40 @@ yyreduce:
 
         (yyval.integer) = count;
       }
-#line 4512 "libyara/grammar.c"
+#line 4523 "libyara/grammar.c"
     break;
 
   case 132: /* $@11: %empty  */
-#line 2421 "libyara/grammar.y"
+#line 2433 "libyara/grammar.y"
       {
         // Push end-of-list marker
         fail_if_error(yr_parser_emit_push_const(yyscanner, YR_UNDEFINED));
       }
-#line 4521 "libyara/grammar.c"
+#line 4532 "libyara/grammar.c"
     break;
 
   case 133: /* rule_set: '(' $@11 rule_enumeration ')'  */
-#line 2426 "libyara/grammar.y"
+#line 2438 "libyara/grammar.y"
       {
         (yyval.integer) = (yyvsp[-1].integer);
       }
-#line 4529 "libyara/grammar.c"
+#line 4540 "libyara/grammar.c"
     break;
 
   case 134: /* rule_enumeration: rule_enumeration_item  */
-#line 2433 "libyara/grammar.y"
+#line 2445 "libyara/grammar.y"
                             { (yyval.integer) = (yyvsp[0].integer); }
-#line 4535 "libyara/grammar.c"
+#line 4546 "libyara/grammar.c"
     break;
 
   case 135: /* rule_enumeration: rule_enumeration ',' rule_enumeration_item  */
-#line 2434 "libyara/grammar.y"
+#line 2446 "libyara/grammar.y"
                                                  { (yyval.integer) = (yyvsp[-2].integer) + (yyvsp[0].integer); }
-#line 4541 "libyara/grammar.c"
+#line 4552 "libyara/grammar.c"
     break;
 
   case 136: /* rule_enumeration_item: "identifier"  */
-#line 2440 "libyara/grammar.y"
+#line 2452 "libyara/grammar.y"
       {
         int result = ERROR_SUCCESS;
 
@@ -4574,11 +4585,11 @@ yyreduce:
 
         (yyval.integer) = 1;
       }
-#line 4578 "libyara/grammar.c"
+#line 4589 "libyara/grammar.c"
     break;
 
   case 137: /* rule_enumeration_item: "identifier" '*'  */
-#line 2473 "libyara/grammar.y"
+#line 2485 "libyara/grammar.y"
       {
         int count = 0;
         YR_NAMESPACE* ns = (YR_NAMESPACE*) yr_arena_get_ptr(
@@ -4601,11 +4612,11 @@ yyreduce:
 
         (yyval.integer) = count;
       }
-#line 4605 "libyara/grammar.c"
+#line 4616 "libyara/grammar.c"
     break;
 
   case 138: /* for_expression: primary_expression  */
-#line 2500 "libyara/grammar.y"
+#line 2512 "libyara/grammar.y"
       {
         if ((yyvsp[0].expression).type == EXPRESSION_TYPE_INTEGER && !IS_UNDEFINED((yyvsp[0].expression).value.integer))
         {
@@ -4661,57 +4672,57 @@ yyreduce:
 
         (yyval.expression).value.integer = (yyvsp[0].expression).value.integer;
       }
-#line 4665 "libyara/grammar.c"
+#line 4676 "libyara/grammar.c"
     break;
 
   case 139: /* for_expression: for_quantifier  */
-#line 2556 "libyara/grammar.y"
+#line 2568 "libyara/grammar.y"
       {
         (yyval.expression).value.integer = (yyvsp[0].expression).value.integer;
       }
-#line 4673 "libyara/grammar.c"
+#line 4684 "libyara/grammar.c"
     break;
 
   case 140: /* for_quantifier: "<all>"  */
-#line 2563 "libyara/grammar.y"
+#line 2575 "libyara/grammar.y"
       {
         fail_if_error(yr_parser_emit_push_const(yyscanner, YR_UNDEFINED));
         (yyval.expression).type = EXPRESSION_TYPE_QUANTIFIER;
         (yyval.expression).value.integer = FOR_EXPRESSION_ALL;
      }
-#line 4683 "libyara/grammar.c"
+#line 4694 "libyara/grammar.c"
     break;
 
   case 141: /* for_quantifier: "<any>"  */
-#line 2569 "libyara/grammar.y"
+#line 2581 "libyara/grammar.y"
       {
         fail_if_error(yr_parser_emit_push_const(yyscanner, 1));
         (yyval.expression).type = EXPRESSION_TYPE_QUANTIFIER;
         (yyval.expression).value.integer = FOR_EXPRESSION_ANY;
       }
-#line 4693 "libyara/grammar.c"
+#line 4704 "libyara/grammar.c"
     break;
 
   case 142: /* for_quantifier: "<none>"  */
-#line 2575 "libyara/grammar.y"
+#line 2587 "libyara/grammar.y"
       {
         fail_if_error(yr_parser_emit_push_const(yyscanner, 0));
         (yyval.expression).type = EXPRESSION_TYPE_QUANTIFIER;
         (yyval.expression).value.integer = FOR_EXPRESSION_NONE;
       }
-#line 4703 "libyara/grammar.c"
+#line 4714 "libyara/grammar.c"
     break;
 
   case 143: /* primary_expression: '(' primary_expression ')'  */
-#line 2585 "libyara/grammar.y"
+#line 2597 "libyara/grammar.y"
       {
         (yyval.expression) = (yyvsp[-1].expression);
       }
-#line 4711 "libyara/grammar.c"
+#line 4722 "libyara/grammar.c"
     break;
 
   case 144: /* primary_expression: "<filesize>"  */
-#line 2589 "libyara/grammar.y"
+#line 2601 "libyara/grammar.y"
       {
         fail_if_error(yr_parser_emit(
             yyscanner, OP_FILESIZE, NULL));
@@ -4719,11 +4730,11 @@ yyreduce:
         (yyval.expression).type = EXPRESSION_TYPE_INTEGER;
         (yyval.expression).value.integer = YR_UNDEFINED;
       }
-#line 4723 "libyara/grammar.c"
+#line 4734 "libyara/grammar.c"
     break;
 
   case 145: /* primary_expression: "<entrypoint>"  */
-#line 2597 "libyara/grammar.y"
+#line 2609 "libyara/grammar.y"
       {
         yywarning(yyscanner,
             "using deprecated \"entrypoint\" keyword. Use the \"entry_point\" "
@@ -4735,11 +4746,11 @@ yyreduce:
         (yyval.expression).type = EXPRESSION_TYPE_INTEGER;
         (yyval.expression).value.integer = YR_UNDEFINED;
       }
-#line 4739 "libyara/grammar.c"
+#line 4750 "libyara/grammar.c"
     break;
 
   case 146: /* primary_expression: "integer function" '(' primary_expression ')'  */
-#line 2609 "libyara/grammar.y"
+#line 2621 "libyara/grammar.y"
       {
         check_type((yyvsp[-1].expression), EXPRESSION_TYPE_INTEGER, "intXXXX or uintXXXX");
 
@@ -4753,33 +4764,33 @@ yyreduce:
         (yyval.expression).type = EXPRESSION_TYPE_INTEGER;
         (yyval.expression).value.integer = YR_UNDEFINED;
       }
-#line 4757 "libyara/grammar.c"
+#line 4768 "libyara/grammar.c"
     break;
 
   case 147: /* primary_expression: "integer number"  */
-#line 2623 "libyara/grammar.y"
+#line 2635 "libyara/grammar.y"
       {
         fail_if_error(yr_parser_emit_push_const(yyscanner, (yyvsp[0].integer)));
 
         (yyval.expression).type = EXPRESSION_TYPE_INTEGER;
         (yyval.expression).value.integer = (yyvsp[0].integer);
       }
-#line 4768 "libyara/grammar.c"
+#line 4779 "libyara/grammar.c"
     break;
 
   case 148: /* primary_expression: "floating point number"  */
-#line 2630 "libyara/grammar.y"
+#line 2642 "libyara/grammar.y"
       {
         fail_if_error(yr_parser_emit_with_arg_double(
             yyscanner, OP_PUSH, (yyvsp[0].double_), NULL, NULL));
 
         (yyval.expression).type = EXPRESSION_TYPE_FLOAT;
       }
-#line 4779 "libyara/grammar.c"
+#line 4790 "libyara/grammar.c"
     break;
 
   case 149: /* primary_expression: "text string"  */
-#line 2637 "libyara/grammar.y"
+#line 2649 "libyara/grammar.y"
       {
         YR_ARENA_REF ref;
 
@@ -4804,11 +4815,11 @@ yyreduce:
         (yyval.expression).type = EXPRESSION_TYPE_STRING;
         (yyval.expression).value.sized_string_ref = ref;
       }
-#line 4808 "libyara/grammar.c"
+#line 4819 "libyara/grammar.c"
     break;
 
   case 150: /* primary_expression: "string count" "<in>" range  */
-#line 2662 "libyara/grammar.y"
+#line 2674 "libyara/grammar.y"
       {
         int result = yr_parser_reduce_string_identifier(
             yyscanner, (yyvsp[-2].c_string), OP_COUNT_IN, YR_UNDEFINED);
@@ -4820,11 +4831,11 @@ yyreduce:
         (yyval.expression).type = EXPRESSION_TYPE_INTEGER;
         (yyval.expression).value.integer = YR_UNDEFINED;
       }
-#line 4824 "libyara/grammar.c"
+#line 4835 "libyara/grammar.c"
     break;
 
   case 151: /* primary_expression: "string count"  */
-#line 2674 "libyara/grammar.y"
+#line 2686 "libyara/grammar.y"
       {
         int result = yr_parser_reduce_string_identifier(
             yyscanner, (yyvsp[0].c_string), OP_COUNT, YR_UNDEFINED);
@@ -4836,11 +4847,11 @@ yyreduce:
         (yyval.expression).type = EXPRESSION_TYPE_INTEGER;
         (yyval.expression).value.integer = YR_UNDEFINED;
       }
-#line 4840 "libyara/grammar.c"
+#line 4851 "libyara/grammar.c"
     break;
 
   case 152: /* primary_expression: "string offset" '[' primary_expression ']'  */
-#line 2686 "libyara/grammar.y"
+#line 2698 "libyara/grammar.y"
       {
         int result = yr_parser_reduce_string_identifier(
             yyscanner, (yyvsp[-3].c_string), OP_OFFSET, YR_UNDEFINED);
@@ -4852,11 +4863,11 @@ yyreduce:
         (yyval.expression).type = EXPRESSION_TYPE_INTEGER;
         (yyval.expression).value.integer = YR_UNDEFINED;
       }
-#line 4856 "libyara/grammar.c"
+#line 4867 "libyara/grammar.c"
     break;
 
   case 153: /* primary_expression: "string offset"  */
-#line 2698 "libyara/grammar.y"
+#line 2710 "libyara/grammar.y"
       {
         int result = yr_parser_emit_push_const(yyscanner, 1);
 
@@ -4871,11 +4882,11 @@ yyreduce:
         (yyval.expression).type = EXPRESSION_TYPE_INTEGER;
         (yyval.expression).value.integer = YR_UNDEFINED;
       }
-#line 4875 "libyara/grammar.c"
+#line 4886 "libyara/grammar.c"
     break;
 
   case 154: /* primary_expression: "string length" '[' primary_expression ']'  */
-#line 2713 "libyara/grammar.y"
+#line 2725 "libyara/grammar.y"
       {
         int result = yr_parser_reduce_string_identifier(
             yyscanner, (yyvsp[-3].c_string), OP_LENGTH, YR_UNDEFINED);
@@ -4887,11 +4898,11 @@ yyreduce:
         (yyval.expression).type = EXPRESSION_TYPE_INTEGER;
         (yyval.expression).value.integer = YR_UNDEFINED;
       }
-#line 4891 "libyara/grammar.c"
+#line 4902 "libyara/grammar.c"
     break;
 
   case 155: /* primary_expression: "string length"  */
-#line 2725 "libyara/grammar.y"
+#line 2737 "libyara/grammar.y"
       {
         int result = yr_parser_emit_push_const(yyscanner, 1);
 
@@ -4906,11 +4917,11 @@ yyreduce:
         (yyval.expression).type = EXPRESSION_TYPE_INTEGER;
         (yyval.expression).value.integer = YR_UNDEFINED;
       }
-#line 4910 "libyara/grammar.c"
+#line 4921 "libyara/grammar.c"
     break;
 
   case 156: /* primary_expression: identifier  */
-#line 2740 "libyara/grammar.y"
+#line 2752 "libyara/grammar.y"
       {
         int result = ERROR_SUCCESS;
 
@@ -4955,11 +4966,11 @@ yyreduce:
 
         fail_if_error(result);
       }
-#line 4959 "libyara/grammar.c"
+#line 4970 "libyara/grammar.c"
     break;
 
   case 157: /* primary_expression: '-' primary_expression  */
-#line 2785 "libyara/grammar.y"
+#line 2797 "libyara/grammar.y"
       {
         int result = ERROR_SUCCESS;
 
@@ -4980,11 +4991,11 @@ yyreduce:
 
         fail_if_error(result);
       }
-#line 4984 "libyara/grammar.c"
+#line 4995 "libyara/grammar.c"
     break;
 
   case 158: /* primary_expression: primary_expression '+' primary_expression  */
-#line 2806 "libyara/grammar.y"
+#line 2818 "libyara/grammar.y"
       {
         int result = yr_parser_reduce_operation(
             yyscanner, "+", (yyvsp[-2].expression), (yyvsp[0].expression));
@@ -5019,11 +5030,11 @@ yyreduce:
 
         fail_if_error(result);
       }
-#line 5023 "libyara/grammar.c"
+#line 5034 "libyara/grammar.c"
     break;
 
   case 159: /* primary_expression: primary_expression '-' primary_expression  */
-#line 2841 "libyara/grammar.y"
+#line 2853 "libyara/grammar.y"
       {
         int result = yr_parser_reduce_operation(
             yyscanner, "-", (yyvsp[-2].expression), (yyvsp[0].expression));
@@ -5058,11 +5069,11 @@ yyreduce:
 
         fail_if_error(result);
       }
-#line 5062 "libyara/grammar.c"
+#line 5073 "libyara/grammar.c"
     break;
 
   case 160: /* primary_expression: primary_expression '*' primary_expression  */
-#line 2876 "libyara/grammar.y"
+#line 2888 "libyara/grammar.y"
       {
         int result = yr_parser_reduce_operation(
             yyscanner, "*", (yyvsp[-2].expression), (yyvsp[0].expression));
@@ -5096,11 +5107,11 @@ yyreduce:
 
         fail_if_error(result);
       }
-#line 5100 "libyara/grammar.c"
+#line 5111 "libyara/grammar.c"
     break;
 
   case 161: /* primary_expression: primary_expression '\\' primary_expression  */
-#line 2910 "libyara/grammar.y"
+#line 2922 "libyara/grammar.y"
       {
         int result = yr_parser_reduce_operation(
             yyscanner, "\\", (yyvsp[-2].expression), (yyvsp[0].expression));
@@ -5130,11 +5141,11 @@ yyreduce:
 
         fail_if_error(result);
       }
-#line 5134 "libyara/grammar.c"
+#line 5145 "libyara/grammar.c"
     break;
 
   case 162: /* primary_expression: primary_expression '%' primary_expression  */
-#line 2940 "libyara/grammar.y"
+#line 2952 "libyara/grammar.y"
       {
         check_type((yyvsp[-2].expression), EXPRESSION_TYPE_INTEGER, "%");
         check_type((yyvsp[0].expression), EXPRESSION_TYPE_INTEGER, "%");
@@ -5156,11 +5167,11 @@ yyreduce:
           fail_if_error(ERROR_DIVISION_BY_ZERO);
         }
       }
-#line 5160 "libyara/grammar.c"
+#line 5171 "libyara/grammar.c"
     break;
 
   case 163: /* primary_expression: primary_expression '^' primary_expression  */
-#line 2962 "libyara/grammar.y"
+#line 2974 "libyara/grammar.y"
       {
         check_type((yyvsp[-2].expression), EXPRESSION_TYPE_INTEGER, "^");
         check_type((yyvsp[0].expression), EXPRESSION_TYPE_INTEGER, "^");
@@ -5170,11 +5181,11 @@ yyreduce:
         (yyval.expression).type = EXPRESSION_TYPE_INTEGER;
         (yyval.expression).value.integer = OPERATION(^, (yyvsp[-2].expression).value.integer, (yyvsp[0].expression).value.integer);
       }
-#line 5174 "libyara/grammar.c"
+#line 5185 "libyara/grammar.c"
     break;
 
   case 164: /* primary_expression: primary_expression '&' primary_expression  */
-#line 2972 "libyara/grammar.y"
+#line 2984 "libyara/grammar.y"
       {
         check_type((yyvsp[-2].expression), EXPRESSION_TYPE_INTEGER, "^");
         check_type((yyvsp[0].expression), EXPRESSION_TYPE_INTEGER, "^");
@@ -5184,11 +5195,11 @@ yyreduce:
         (yyval.expression).type = EXPRESSION_TYPE_INTEGER;
         (yyval.expression).value.integer = OPERATION(&, (yyvsp[-2].expression).value.integer, (yyvsp[0].expression).value.integer);
       }
-#line 5188 "libyara/grammar.c"
+#line 5199 "libyara/grammar.c"
     break;
 
   case 165: /* primary_expression: primary_expression '|' primary_expression  */
-#line 2982 "libyara/grammar.y"
+#line 2994 "libyara/grammar.y"
       {
         check_type((yyvsp[-2].expression), EXPRESSION_TYPE_INTEGER, "|");
         check_type((yyvsp[0].expression), EXPRESSION_TYPE_INTEGER, "|");
@@ -5198,11 +5209,11 @@ yyreduce:
         (yyval.expression).type = EXPRESSION_TYPE_INTEGER;
         (yyval.expression).value.integer = OPERATION(|, (yyvsp[-2].expression).value.integer, (yyvsp[0].expression).value.integer);
       }
-#line 5202 "libyara/grammar.c"
+#line 5213 "libyara/grammar.c"
     break;
 
   case 166: /* primary_expression: '~' primary_expression  */
-#line 2992 "libyara/grammar.y"
+#line 3004 "libyara/grammar.y"
       {
         check_type((yyvsp[0].expression), EXPRESSION_TYPE_INTEGER, "~");
 
@@ -5212,11 +5223,11 @@ yyreduce:
         (yyval.expression).value.integer = ((yyvsp[0].expression).value.integer == YR_UNDEFINED) ?
             YR_UNDEFINED : ~((yyvsp[0].expression).value.integer);
       }
-#line 5216 "libyara/grammar.c"
+#line 5227 "libyara/grammar.c"
     break;
 
   case 167: /* primary_expression: primary_expression "<<" primary_expression  */
-#line 3002 "libyara/grammar.y"
+#line 3014 "libyara/grammar.y"
       {
         int result;
 
@@ -5236,11 +5247,11 @@ yyreduce:
 
         fail_if_error(result);
       }
-#line 5240 "libyara/grammar.c"
+#line 5251 "libyara/grammar.c"
     break;
 
   case 168: /* primary_expression: primary_expression ">>" primary_expression  */
-#line 3022 "libyara/grammar.y"
+#line 3034 "libyara/grammar.y"
       {
         int result;
 
@@ -5260,19 +5271,19 @@ yyreduce:
 
         fail_if_error(result);
       }
-#line 5264 "libyara/grammar.c"
+#line 5275 "libyara/grammar.c"
     break;
 
   case 169: /* primary_expression: regexp  */
-#line 3042 "libyara/grammar.y"
+#line 3054 "libyara/grammar.y"
       {
         (yyval.expression) = (yyvsp[0].expression);
       }
-#line 5272 "libyara/grammar.c"
+#line 5283 "libyara/grammar.c"
     break;
 
 
-#line 5276 "libyara/grammar.c"
+#line 5287 "libyara/grammar.c"
 
       default: break;
     }
@@ -5496,5 +5507,5 @@ yyreturnlab:
   return yyresult;
 }
 
-#line 3047 "libyara/grammar.y"
+#line 3059 "libyara/grammar.y"
 
